@@ -158,6 +158,9 @@ def check(case):
         elif mode == "json":
             outp = os.path.join(d, "report.json")
             argv += ["-j", outp]
+        # the global NumPy RNG is put in an unrelated state first: a command line that fails to apply --seed must
+        # not be rescued by the state the test driver happens to leave behind (Hypothesis seeds it with 0)
+        np.random.seed((case["seed"] * 7919 + 987654321) % (2 ** 32))
         stdout = run_cli(argv)
         ref = api_results(case, paths)
         # ---- parse the CLI's results
